@@ -47,10 +47,9 @@ def rstripBy (p : Char → Bool) (s : Str) : Str := (s.reverse.dropWhile p).reve
 /-- first occurrence of the two characters `a b`: (what precedes it, what follows it) -/
 def find2 (a b : Char) : Str → Option (Str × Str)
   | [] => none
-  | [_] => none
-  | c :: d :: r =>
-      if c = a && d = b then some ([], r)
-      else match find2 a b (d :: r) with
+  | c :: r =>
+      if c = a && r.head? = some b then some ([], r.tail)
+      else match find2 a b r with
         | some (x, y) => some (c :: x, y)
         | none => none
 
